@@ -255,6 +255,9 @@ def monitor(op_line, out_line, st, flavor='panoc'):
         if flavor in ('panoc', 'zerofpr', 'pantr') and op.nat('nanat', 0) == 0:
             m = stale_gradient(op, last, need_gh)
             if m:
+                if flavor == 'panoc' and op.nat('eager', 0) and op.nat('wmscratch', 0):
+                    import loopmon          # ∇ψ(x̂) recomputed from the workspace "ŷ" after an interrupted line search
+                    return m, loopmon.KEY_EAGER_YHAT
                 return m
         # the written-back x is the x̂ of that iterate
         wrote = status in ('Converged', 'Interrupted') or P['overwrite']
@@ -335,8 +338,13 @@ def gen_for(solver_name, rng, mod):
         op = mod.gen_run(rng, scenario=scen) if scen else mod.gen_run(rng)
         if 0.2 <= r < 0.3:
             op['maxiter'] = str(rng.choice([0, 1, 2]))
+        if not scen:
+            S.vary_all(rng, op, 'ocp')
         return op
-    return tweak_poly(rng, mod.gen_run(rng))
+    op = S.vary_all(rng, mod.gen_run(rng), solver_name)          # incl. the NoProgress / NotFinite start classes
+    if rng.random() < 0.1:
+        op['maxiter'] = str(rng.choice([0, 1, 2]))
+    return op
 
 
 def adapters(names=None):
@@ -349,7 +357,7 @@ def adapters(names=None):
             continue
         if s.name == 'panoc':
             def gen(a, rng, n, exe, nsweep):
-                ops = PANOC_CORPUS + [gen_run(rng, 'panoc').line() for _ in range(n)]
+                ops = PANOC_CORPUS + [S.vary_all(rng, gen_run(rng, 'panoc'), 'panoc').line() for _ in range(n)]
                 if exe and nsweep:
                     ops += c03.sweep_ops(rng, exe, nsweep, solver='panoc')
                 return ops
@@ -391,8 +399,12 @@ def solver_monitor(solver, o, h, st):
 PER = {}
 
 
+COVER = S.Coverage()
+
+
 def counted_monitor(solver, o, h, st):
     before = dict(COUNTS)
+    COVER.add(solver.name, o, h)
     try:
         return solver_monitor(solver, o, h, st)
     finally:
@@ -409,13 +421,16 @@ def loop_stage(rep, broken, tier, sols):
     import loopmon as LM
     distinct = set()
     found = multiloop.run_solvers(rep, broken, sols, counted_monitor, tier,
-                                  n=1500 if tier == 'quick' else 25000, nsweep=1 if tier == 'quick' else 8,
+                                  n=1500 if tier == 'quick' else 12500, nsweep=1 if tier == 'quick' else 8,
                                   nontrivial=lambda o, h: nontrivial_any(o, h), distinct=distinct, label='loop ')
     LM.report_hung(rep, sols)
     rep.cov['distinct_nontrivial_loop'] = len(distinct)
     rep.cov['loop_monitor_counts'] = {k: dict(sorted(v.items())) for k, v in PER.items()}
+    import loop_fista
+    rep.cov['fista_monitor_counts'] = loop_fista.COUNTS
     for name, d in PER.items():
         rep.note(f'loop monitor coverage [{name}]: ' + ', '.join(f'{k}={v}' for k, v in sorted(d.items())))
+    COVER.report(rep, broken, tier, [s.name for s in sols if rep.cov.get('per_solver', {}).get(s.name, {}).get('runs')])
     need = ['status_Converged', 'status_MaxIter', 'status_Interrupted', 'status_NotFinite', 'eps_formula_bitexact']
     for s in sols:
         if not rep.cov.get('per_solver', {}).get(s.name, {}).get('runs'):
